@@ -1,5 +1,6 @@
 import CV.Proofs.AnsMisc
 import CV.Proofs.AnsBinary
+import CV.Properties.C01_ans
 /-!
 # C18 (ANS part) — size, emptiness and exhaustion queries report exactly what is there
 -/
@@ -11,7 +12,7 @@ open CV CV.Ans
 theorem sizes_exact (c : Cfg) {x : Coder} (hcap : x.cap = none) :
     ∃ ws, intoCompressed c x = some ws ∧ numWords c x = ws.length ∧
       numBits c x = c.W * ws.length ∧ iterCompressed c x = ws.reverse :=
-  numWords_eq (fun _ _ => trivial) hcap
+  numWords_eq hcap
 
 /-- a coder reports empty exactly when exporting it returns nothing
     (`maybe_exhausted` of the ANS decoder is `is_empty`) -/
@@ -25,6 +26,73 @@ theorem valid_bits_of_binary {c : Cfg} (hc : c.Valid) (ws : List Nat) (hws : ∀
     numValidBits c (fromBinary c ws) = c.W * ws.length :=
   numValidBits_fromBinary hc ws hws
 
+
+/-- does the history contain a pop below the base? -/
+def noPopBelow {Sym : Type} : List (C01.Op Sym) → Prop
+  | [] => True
+  | .popBelow _ :: _ => False
+  | _ :: ops => noPopBelow ops
+
+theorem run_base_unchanged {Sym : Type} (W S : Nat) (ops : List (C01.Op Sym)) (h : noPopBelow ops)
+    (st fin : C01.RunState Sym) (hr : C01.run W S st ops = .ok fin) : fin.base = st.base := by
+  induction ops generalizing st with
+  | nil => simp only [C01.run, Except.ok.injEq] at hr; rw [← hr]
+  | cons op ops ih =>
+    simp only [C01.run] at hr
+    cases hstep : C01.step W S st op with
+    | error e => rw [hstep] at hr; cases hr
+    | ok st' =>
+      rw [hstep] at hr
+      have hb : st'.base = st.base := by
+        cases op with
+        | push e =>
+          simp only [C01.step] at hstep
+          split at hstep
+          · simp only [Except.ok.injEq] at hstep; rw [← hstep]
+          · cases hstep
+        | pop =>
+          simp only [C01.step] at hstep
+          split at hstep
+          · simp only [Except.ok.injEq] at hstep; rw [← hstep]
+          · split at hstep
+            · simp only [Except.ok.injEq] at hstep; rw [← hstep]
+            · cases hstep
+        | popBelow e => exact absurd h (by simp [noPopBelow])
+        | reload =>
+          simp only [C01.step] at hstep
+          split at hstep
+          · split at hstep
+            · simp only [Except.ok.injEq] at hstep; rw [← hstep]
+            · cases hstep
+          · cases hstep
+        | clone =>
+          simp only [C01.step, Except.ok.injEq] at hstep; rw [← hstep]
+      have hrest : noPopBelow ops := by
+        cases op <;> first | exact h | exact absurd h (by simp [noPopBelow])
+      rw [ih hrest st' hr, hb]
+
+/-- **`maybe_exhausted` / `is_empty` after popping everything pushed onto an empty coder**: for any
+    history of pushes, pops, reloads and clones starting from `AnsCoder::new()`, whenever every
+    pushed symbol has been popped again the coder reports empty (and exports nothing). -/
+theorem empty_after_popping_everything {Sym : Type} {W S : Nat} (hWS : 1 ≤ W ∧ 2 * W ≤ S)
+    (ops : List (C01.Op Sym)) (hops : ∀ op ∈ ops, op.OK W S) (hnp : noPopBelow ops) :
+    ∃ fin, C01.run W S { coder := Ans.empty, base := Ans.empty, ghost := [], outs := [] } ops = .ok fin ∧
+      (fin.ghost = [] → isEmpty fin.coder = true ∧
+        intoCompressed { W := W, S := S, P := 1, B := 1 } fin.coder = some []) := by
+  have hempty : Inv { W := W, S := S, P := 1, B := 1 } Ans.empty :=
+    ⟨Nat.two_pow_pos _, by simp [Ans.empty], by simp [Ans.empty]⟩
+  obtain ⟨fin, h1, h2, _, _, h5⟩ := C01.run_refines_stack hWS ops hops
+    { coder := Ans.empty, base := Ans.empty, ghost := [], outs := [] } hempty rfl
+    (by intro e he; cases he) rfl
+  refine ⟨fin, h1, fun hg => ?_⟩
+  have hb := run_base_unchanged W S ops hnp _ fin h1
+  have hc : fin.coder = Ans.empty := by rw [h5 hg, hb]
+  rw [hc]
+  refine ⟨rfl, ?_⟩
+  rw [intoCompressed_none (c := { W := W, S := S, P := 1, B := 1 }) (x := Ans.empty) rfl, chunksBE_eq]
+  show some (digitsBE W 0 (nchunks W 0) ++ []) = some []
+  rw [nchunks_zero W (by omega), digitsBE_zero]; rfl
+
 example : numValidBits { W := 8, S := 32, P := 1, B := 1 } (fromBinary { W := 8, S := 32, P := 1, B := 1 } [0, 0, 0, 7, 9]) = 40 := by
   rfl
 
@@ -33,3 +101,5 @@ end CV.Ans.C18
 #print axioms CV.Ans.C18.sizes_exact
 #print axioms CV.Ans.C18.empty_iff_no_words
 #print axioms CV.Ans.C18.valid_bits_of_binary
+#print axioms CV.Ans.C18.run_base_unchanged
+#print axioms CV.Ans.C18.empty_after_popping_everything
